@@ -166,10 +166,23 @@ def run_case(case):
     return out
 
 
+async def warm_up():
+    async with PyscriptEnv(files={"warm.py": "x = 1\n"}, legacy=False, log_level=logging.ERROR) as env:
+        await env.settle()
+
+
 def main():
     req = json.loads(sys.stdin.read())
     logging.disable(logging.NOTSET)
-    res = [run_case(c) for c in req["cases"]]
+    # Home Assistant's modules are moved out of the collector's way; after every case its pyscript objects are finalised at
+    # once: a late EvalFuncVar.__del__ -> trigger_stop -> service_remove would hit the same-named service of a later case
+    run_virtual(warm_up())
+    gc.collect()
+    gc.freeze()
+    res = []
+    for c in req["cases"]:
+        res.append(run_case(c))
+        gc.collect()
     print("RESULT " + json.dumps(res))
 
 
